@@ -72,10 +72,16 @@ def make_formula_body(formula, default_value, assoc_value=None, indent=''):
     atok = asttokens.ASTText(builder.get_text())
     for node in _multiline_string_nodes(atok, atok.tree):
       # We have a constant or f-string that spans multiple lines. If so, revert its indentation.
-      start, end = atok.get_text_range(node)
+      # Remove the indentation after each newline using a separate patch for each, so that
+      # positions within the string still map back precisely (e.g. for renames in f-strings).
+      start, _ = atok.get_text_range(node)
       indented_text = atok.get_text(node)
-      unindented_text = indented_text.replace('\n' + indent, '\n')
-      unindent_patches.append(textbuilder.Patch(start, end, indented_text, unindented_text))
+      pos = indented_text.find('\n' + indent)
+      while pos >= 0:
+        patch_start = start + pos + 1
+        unindent_patches.append(
+          textbuilder.Patch(patch_start, patch_start + len(indent), indent, ''))
+        pos = indented_text.find('\n' + indent, pos + 1)
 
     return textbuilder.Replacer(builder, unindent_patches)
   else:
